@@ -195,6 +195,11 @@ var hereditary = map[string]func(g *graph.DenseGraph) bool{
 		}
 		return true
 	},
+	"nothing":   func(g *graph.DenseGraph) bool { return false },
+	"order0":    func(g *graph.DenseGraph) bool { return g.N() <= 0 },
+	"order1":    func(g *graph.DenseGraph) bool { return g.N() <= 1 },
+	"order2":    func(g *graph.DenseGraph) bool { return g.N() <= 2 },
+	"maxedges3": func(g *graph.DenseGraph) bool { return g.M() <= 3 },
 	"k4free":    func(g *graph.DenseGraph) bool { return graph.CliqueNumber(g) < 4 },
 	"bipartite": func(g *graph.DenseGraph) bool { ok, _ := graph.IsKColorable(g, 2); return ok || g.N() == 0 },
 	"forest":    func(g *graph.DenseGraph) bool { return graph.Girth(g) == -1 },
@@ -398,7 +403,10 @@ func searchGrid(c *Ctx) []searchSeg {
 	if c.Thorough() {
 		maxN = 7
 	}
-	preds := []string{"trianglefree", "maxdeg2", "forest", "k4free", "clawfree", "bipartite", "alpha2", "cmulti", "cograph"}
+	preds := []string{"trianglefree", "maxdeg2", "forest", "k4free", "clawfree", "bipartite", "alpha2", "cmulti", "cograph",
+		// degenerate hereditary classes: the empty class, classes bounded by the number of vertices (they exclude K1 / the null graph,
+		// which the search treats in special cases), a class bounded by the number of edges
+		"nothing", "order0", "order1", "order2", "maxedges3"}
 	var segs []searchSeg
 	for n := 0; n <= maxN; n++ {
 		s := searchSeg{N: n, Runs: []searchRun{{M: 1, Pred: "none", Place: "none"}}}
@@ -432,7 +440,9 @@ func searchGrid(c *Ctx) []searchSeg {
 	bigs := []searchSeg{{N: 8, Big: "trianglefree"}, {N: 9, Big: "trianglefree"}, {N: 10, Big: "trianglefree"}, {N: 9, Big: "forest"}, {N: 10, Big: "forest"},
 		{N: 10, Big: "maxdeg2"}, {N: 11, Big: "maxdeg2"}, {N: 9, Big: "bipartite"}, {N: 8, Big: "cograph"}, {N: 8, Big: "alpha2"},
 		// parents of more than 12 / 16 vertices (sort and bit-mask paths of the augmentation step), counts judged by closed forms
-		{N: 13, Big: "maxdeg2"}, {N: 14, Big: "maxdeg1"}, {N: 18, Big: "maxdeg1"}, {N: 19, Big: "maxdeg1"}}
+		{N: 13, Big: "maxdeg2"}, {N: 14, Big: "maxdeg1"}, {N: 18, Big: "maxdeg1"}, {N: 19, Big: "maxdeg1"},
+		// cells of more than 20 vertices (merge phase of the refinement sort): at most 3 edges on 21 / 22 vertices, 9 classes
+		{N: 21, Big: "maxedges3"}, {N: 22, Big: "maxedges3"}}
 	if c.Thorough() {
 		bigs = append(bigs, searchSeg{N: 11, Big: "forest"}, searchSeg{N: 12, Big: "maxdeg2"}, searchSeg{N: 10, Big: "bipartite"}, searchSeg{N: 9, Big: "cograph"}, searchSeg{N: 11, Big: "trianglefree"},
 			searchSeg{N: 14, Big: "maxdeg2"}, searchSeg{N: 15, Big: "maxdeg2"}, searchSeg{N: 22, Big: "maxdeg1"}, searchSeg{N: 33, Big: "maxdeg1"})
